@@ -111,6 +111,8 @@ class ListProxy(list, ContainerValueMixin):
             # any iterable may be assigned to a slice, as with list
             super().__setitem__(index, [self._validate(i) for i in item])
         else:
+            # an index that names no item is refused before the new item is taken over
+            super().__getitem__(index)
             super().__setitem__(index, self._validate(item))
 
     def _validate(self, value: Any) -> Any:
